@@ -10,6 +10,9 @@ refinement lemmas (`Lemmas/QMatRefines.lean`).
   `gamma0_fixed_point_model` carries the fixed-point theorem down, `covY00_view` identifies the model's measurement
   block with the (2,2) block of `C15.Gamma0`.
 * `autocovTriangular_view`: the model's list `Γ_{j+1} = 𝒜 Γ_j` is `𝒜^j Γ_0` (`C15.autocov_closed_form` on the views).
+* padding: `covAlpha00_view`, `Ta00_view` (zero padding as `fromBlocks 0 0 0 ·`), `padded_Lyap`
+  (`C15.padded_lyapunov` on the model), `covTriangular00_view` (the assembled `Γ_0` is `C15.Gamma0` of the padded
+  system), `calA_view`, `covTriangular00_fixed_point` (`gamma0_fixed_point` for the matrix the model returns).
 * scaling law: `sigmaU_rescale`, `rescale_Lyap` (the `s²`-scaled solution solves the rescaled model's equation) and,
   when `I − T⊗T` is non-singular, `rescale_solution` (the model's solution for the rescaled model *is* `s²` times the
   original one, as `QMat` values), with the consequence for every `Γ_j` (`autocovTriangular_rescale`).
@@ -143,6 +146,14 @@ structure Dims (s : Sol) : Prop where
   Za_rows : s.Za.rows = s.ny
   covU_ws : s.covU.wellShaped = true
   covW_ws : s.covW.wellShaped = true
+
+/-- `Model/Acov.lean` performs no shape checks of its own (its inputs are the implementation's matrices, cut to
+shape by the driver's parser).  `Dims` holds for every input of the shape the driver constructs: the shock covariances
+are `QMat.diag` of vectors of the right length, `H` and `Za` have `ny` rows. -/
+theorem dims_of_driver_shape (s : Sol) (du dw : QVec) (hU : s.covU = QMat.diag du) (hW : s.covW = QMat.diag dw)
+    (h1 : du.size = s.Pa.cols) (h2 : dw.size = s.H.cols) (h3 : s.H.rows = s.ny) (h4 : s.Za.rows = s.ny) : Dims s :=
+  ⟨by rw [hU]; exact h1, by rw [hW]; exact h2, h3, h4, by rw [hU]; exact wellShaped_diag _,
+    by rw [hW]; exact wellShaped_diag _⟩
 
 section stable
 variable (s : Sol)
@@ -328,6 +339,135 @@ theorem acov_rescale (hd : Dims s) (OmS OmS' : QMat) (f : Rat)
   exact toSquare_scaled s f (autocovTriangular_scaled s hd.covW_ws f (scaled_smul (f * f) OmS hO) j)
 
 end stable
+
+/-! ## the zero padding: the matrices the model actually assembles -/
+
+section padded
+variable (s : Sol)
+
+local notation "nS" => s.na - s.nu
+local notation "nE" => s.Pa.cols
+local notation "nW" => s.H.cols
+local notation "N0" => s.nu + (s.na - s.nu)
+set_option quotPrecheck false
+local notation "Ts" => (TaStable s).toMat nS nS
+local notation "Ps" => (PaStable s).toMat nS nE
+local notation "Zs" => (ZaStable s).toMat s.ny nS
+local notation "Su" => s.covU.toMat nE nE
+local notation "Sw" => s.covW.toMat nW nW
+local notation "Hm" => s.H.toMat s.ny nW
+local notation "eS" => (finSumFinEquiv (m := s.nu) (n := s.na - s.nu)).symm
+
+/-- the padded covariance (`cov_alpha_00`) is the zero padding of the stable block -/
+theorem covAlpha00_view (OmS : QMat) :
+    (covAlpha00 s OmS).toMat N0 N0 =
+      (fromBlocks (0 : Matrix (Fin s.nu) (Fin s.nu) ℚ) 0 0 (OmS.toMat nS nS)).submatrix eS eS := by
+  ext i j
+  unfold covAlpha00
+  refine Fin.addCases (fun i => ?_) (fun i => ?_) i <;> refine Fin.addCases (fun j => ?_) (fun j => ?_) j <;>
+    simp [get_ofFn, finSumFinEquiv_symm_apply_castAdd, finSumFinEquiv_symm_apply_natAdd]
+  all_goals omega
+
+/-- the padded transition matrix (`Ta_00`) likewise -/
+theorem Ta00_view :
+    (Ta00 s).toMat N0 N0 = (fromBlocks (0 : Matrix (Fin s.nu) (Fin s.nu) ℚ) 0 0 Ts).submatrix eS eS := by
+  ext i j
+  unfold Ta00 TaStable
+  refine Fin.addCases (fun i => ?_) (fun i => ?_) i <;> refine Fin.addCases (fun j => ?_) (fun j => ?_) j <;>
+    simp [get_ofFn, get_block, finSumFinEquiv_symm_apply_castAdd, finSumFinEquiv_symm_apply_natAdd]
+  all_goals omega
+
+/-- `Pa` with its unit-root rows set to zero -/
+def Ppad : Matrix (Fin N0) (Fin nE) ℚ := (fromRows (0 : Matrix (Fin s.nu) (Fin nE) ℚ) Ps).submatrix eS id
+
+theorem Ppad_apply (i : Fin N0) (j : Fin nE) :
+    Ppad s i j = if s.nu ≤ (i : Nat) then s.Pa.get i j else 0 := by
+  unfold Ppad PaStable
+  refine Fin.addCases (fun i => ?_) (fun i => ?_) i
+  · have := i.isLt
+    simp [finSumFinEquiv_symm_apply_castAdd]
+  · simp [finSumFinEquiv_symm_apply_natAdd, get_block]
+
+/-- **`C15.padded_lyapunov` on the model**: the zero-padded covariance `cov_alpha_00` solves the Lyapunov equation of
+the system whose unit-root rows and columns are set to zero (`Ta_00`, padded `Pa`) -/
+theorem padded_Lyap (hU : s.covU.cols = s.Pa.cols) (OmS : QMat)
+    (h : lyapunov (TaStable s) (sigmaU s) = some OmS) :
+    C15.Lyap ((Ta00 s).toMat N0 N0) (Ppad s) Su ((covAlpha00 s OmS).toMat N0 N0) ∧
+    ((covAlpha00 s OmS).toMat N0 N0)ᵀ = (covAlpha00 s OmS).toMat N0 N0 := by
+  obtain ⟨hL, hsym⟩ := stable_Lyap s hU OmS h
+  have hp := C15.padded_lyapunov (u := Fin s.nu) Ts Ps Su (OmS.toMat nS nS) hL
+  unfold C15.Lyap at hp ⊢
+  rw [covAlpha00_view, Ta00_view]
+  constructor
+  · unfold Ppad
+    conv_lhs => rw [hp]
+    simp only [Matrix.submatrix_add, Matrix.transpose_submatrix, Matrix.submatrix_mul_equiv, Pi.add_apply]
+    congr 1
+  · rw [Matrix.transpose_submatrix, Matrix.fromBlocks_transpose, hsym]
+    simp
+
+local notation "Zf" => s.Za.toMat s.ny N0
+local notation "eJ" => (finSumFinEquiv (m := s.nu + (s.na - s.nu)) (n := s.ny)).symm
+
+theorem Za_split : Zf = (fromCols (s.Za.toMat s.ny s.nu) Zs).submatrix id eS := by
+  ext i j
+  unfold ZaStable
+  refine Fin.addCases (fun j => ?_) (fun j => ?_) j
+  · simp [finSumFinEquiv_symm_apply_castAdd]
+  · simp [finSumFinEquiv_symm_apply_natAdd, get_block]
+
+/-- the measurement block computed from the stable block is the one of the padded system -/
+theorem Z_padded (OmS : QMat) :
+    Zf * (covAlpha00 s OmS).toMat N0 N0 * Zfᵀ = Zs * OmS.toMat nS nS * Zsᵀ := by
+  rw [covAlpha00_view, Za_split, Matrix.transpose_submatrix, Matrix.submatrix_mul_equiv,
+    Matrix.submatrix_mul_equiv, fromCols_mul_fromBlocks, transpose_fromCols, fromCols_mul_fromRows]
+  simp
+
+/-- **the model's assembled `Γ_0` is `C15.Gamma0` of the padded system** (`get_cov_triangular_00`) -/
+theorem covTriangular00_view (hd : Dims s) (hle : s.nu ≤ s.na) (hZc : s.Za.cols = s.na) (OmS : QMat)
+    (hOc : OmS.cols = nS) :
+    (covTriangular00 s OmS).toMat (N0 + s.ny) (N0 + s.ny) =
+      (C15.Gamma0 Zf Hm Sw ((covAlpha00 s OmS).toMat N0 N0)).submatrix eJ eJ := by
+  have hN : s.na = N0 := by omega
+  unfold covTriangular00 C15.Gamma0
+  simp only
+  have hcar : (covAlpha00 s OmS).rows = N0 := hN
+  have hcac : (covAlpha00 s OmS).cols = N0 := hN
+  have hcayc : (covAlpha00 s OmS * s.Za.transpose).cols = s.ny := hd.Za_rows
+  have hcay : (covAlpha00 s OmS * s.Za.transpose).toMat N0 s.ny = (covAlpha00 s OmS).toMat N0 N0 * Zfᵀ := by
+    rw [toMat_mul _ _ N0 N0 s.ny hcar hcac hd.Za_rows, toMat_transpose s.Za s.ny N0 hd.Za_rows (hZc.trans hN)]
+  rw [toMat_vstack_hstack (covAlpha00 s OmS) (covAlpha00 s OmS * s.Za.transpose)
+      (covAlpha00 s OmS * s.Za.transpose).transpose (covY00 s OmS) N0 s.ny N0 s.ny hcar hcac hcayc hcayc hcar rfl,
+    toMat_transpose (covAlpha00 s OmS * s.Za.transpose) N0 s.ny hcar hcayc, hcay, covY00_view s hd OmS hOc,
+    ← Z_padded]
+
+/-- the model's `𝒜` is `C15.calA` of the padded system -/
+theorem calA_view (hd : Dims s) (hle : s.nu ≤ s.na) (hZc : s.Za.cols = s.na) :
+    (Acov.calA s).toMat (N0 + s.ny) (N0 + s.ny) = (C15.calA ((Ta00 s).toMat N0 N0) Zf).submatrix eJ eJ := by
+  have hN : s.na = N0 := by omega
+  unfold Acov.calA C15.calA
+  simp only
+  rw [toMat_vstack_hstack (Ta00 s) (QMat.zero s.na s.ny) (s.Za * Ta00 s) (QMat.zero s.ny s.ny)
+      N0 s.ny N0 s.ny hN hN rfl hd.Za_rows hN rfl,
+    toMat_mul s.Za (Ta00 s) s.ny N0 N0 hd.Za_rows (hZc.trans hN) hN, toMat_zero, toMat_zero]
+
+/-- **`C15.gamma0_fixed_point` for the matrix the model actually assembles**: `Γ_0 = get_cov_triangular_00`
+(zero-padded unit-root block included) is a fixed point of second-moment propagation of the model's joint transition
+matrix `𝒜 = calA s`, with the shock loading of the padded system -/
+theorem covTriangular00_fixed_point (hd : Dims s) (hle : s.nu ≤ s.na) (hZc : s.Za.cols = s.na) (OmS : QMat)
+    (h : lyapunov (TaStable s) (sigmaU s) = some OmS) :
+    (covTriangular00 s OmS).toMat (N0 + s.ny) (N0 + s.ny) =
+      (Acov.calA s).toMat (N0 + s.ny) (N0 + s.ny) * (covTriangular00 s OmS).toMat (N0 + s.ny) (N0 + s.ny)
+          * ((Acov.calA s).toMat (N0 + s.ny) (N0 + s.ny))ᵀ
+        + (C15.calB (Ppad s) Zf Hm * C15.calS Su Sw * (C15.calB (Ppad s) Zf Hm)ᵀ).submatrix eJ eJ := by
+  obtain ⟨hL, hsym⟩ := padded_Lyap s hd.covU_cols OmS h
+  have hOc := (lyapunov_view (TaStable s) (sigmaU s) OmS nS rfl rfl h).2.1
+  have hfix := C15.gamma0_fixed_point _ (Ppad s) Zf Hm Su Sw _ hL hsym
+  rw [covTriangular00_view s hd hle hZc OmS hOc, calA_view s hd hle hZc]
+  conv_lhs => rw [hfix]
+  simp only [Matrix.submatrix_add, Matrix.transpose_submatrix, Matrix.submatrix_mul_equiv, Pi.add_apply]
+
+end padded
 
 /-- what a successful `acov` is made of: the checked Lyapunov solution of the stable block and, per order, the
 selected, NaN-masked square form of `Γ_j` -/
